@@ -22,6 +22,7 @@ RULE = ("ASTs in the image of the parser: parse of min-/full-/random-parenthesis
         "with all literal kinds, hostile strings, namespaces, paths, lambdas, named "
         "parameters. distinct = distinct source text; non-trivial = AST has >= 3 nodes")
 RULE += (" " + 'Also: unary minus (7 contexts) before every literal spelling class; namespaced named-parameter names and lambda variables.')
+RULE += (" " + 'Raw-spelling lane also has every word operator as the LAST segment of an operand path in 10 positions.')
 ASSUMPTIONS = ["the parser defines which ASTs are in scope (only its image is judged)"]
 EXHAUSTIVE = "all operator pairs and triples (parsed from both renderings)"
 SHARDS = {"quick": 12, "thorough": 16}
